@@ -451,6 +451,7 @@ class CFn(StFn):
     def assign_local(self, name, term, ty, rest, K, node):
         declared = self.env.get(name)
         if declared == "cbody": term, ty = self.coerce(term, ty, "cbody", "TypeError", node), "cbody"
+        elif declared == "Z" and ty == "N": term, ty = self.coerce(term, ty, "Z", "TypeError", node), "Z"
         elif declared is not None and declared != ty: bad(node, "local %s changes type from %s to %s" % (name, declared, ty))
         if ty == "none": bad(node, "local bound to None without a declared type")
         c = self.bind(name, ty)
